@@ -171,7 +171,7 @@ for tup in _thorough:
 for n in (2, 3):
     OBLIGATIONS.append(_ob('split_arity%d' % n, 'h_split', 'quick', 600, pos=list(range(1, n + 1))))
 for n in (4, 5):
-    OBLIGATIONS.append(_ob('split_arity%d' % n, 'h_split', 'thorough', 900, pos=list(range(1, n + 1))))
+    OBLIGATIONS.append(_ob('split_arity%d' % n, 'h_split', 'quick', 900, pos=list(range(1, n + 1))))
 OBLIGATIONS.append(_ob('split_reject', 'h_split_reject', 'quick', 300))
 _SHIPPED = _shipped_notes()
 for idx, note in enumerate(_SHIPPED):
